@@ -145,13 +145,28 @@ func drawSeq(t *rapid.T, maxLen, maxTypes, depth int) gen.Seq {
 
 func genCase(t *rapid.T) Case {
 	maxLen, depth := 40, 3
-	if vt.Thorough() {
+	switch {
+	case raceEnabled:
+		// Every values frame costs a 512 KiB pooled buffer, which the race
+		// detector makes ~50x more expensive: keep sequences short there.
+		maxLen = 16
+		if rapid.IntRange(0, 3).Draw(t, "long?") == 0 {
+			maxLen = 48
+		}
+		if vt.Thorough() && rapid.IntRange(0, 3).Draw(t, "deep?") == 0 {
+			depth = 4
+		}
+	case vt.Thorough():
 		maxLen = 400
 		if rapid.IntRange(0, 3).Draw(t, "deep?") == 0 {
 			depth = 4
 		}
 		if rapid.IntRange(0, 3).Draw(t, "short?") > 0 {
 			maxLen = 60
+		}
+	default:
+		if rapid.IntRange(0, 15).Draw(t, "long?") == 0 {
+			maxLen = 300
 		}
 	}
 	c := Case{Seq: drawSeq(t, maxLen, 6, depth)}
@@ -177,7 +192,7 @@ func genCase(t *rapid.T) Case {
 		c.EOS = append(c.EOS, rapid.IntRange(0, n-1).Draw(t, "eos"))
 	}
 	c.EOSTail = rapid.IntRange(0, 3).Draw(t, "eostail") == 0
-	if rapid.IntRange(0, 24).Draw(t, "pad?") == 0 {
+	if !raceEnabled && rapid.IntRange(0, 24).Draw(t, "pad?") == 0 {
 		c.Pad = Pad{
 			Pos:  rapid.IntRange(0, n).Draw(t, "padpos"),
 			Len:  rapid.SampledFrom([]int{1<<19 - 8, 1 << 19, 1<<19 + 1, 600_000, 1_100_000}).Draw(t, "padlen"),
